@@ -253,6 +253,10 @@ def weird_cmd(rnd):
         return rnd.choice(['list ~ ' + '9' * 5000, 'l ~ -' + '1' * 4400, 'wl list wl_display ~ ' + '0' * 6000, 'list ~ +5', 'list ~ 1_0', 'list ~ 0x10',
                            'list ~ 1e3', 'list ~ \u0663', 'list ~ \uff15', 'list ~ 5 ~ 6', 'list ~', 'connection ' + 'A' * 5000, 'help ' + 'x' * 5000,
                            'filter ' + 'a' * 20000, 'breakpoint (' + '1' * 5000 + ')', 'list (' + '1' * 4400 + '.' + '5' * 10 + ')'])
+    if r < 0.12:
+        # escape sequences as a terminal selection carries them: before the first word (D13: followed by a blank it tripped an assertion), alone, broken
+        return rnd.choice(['\x1b[0m list', '\x1b[0m \x1b[1m  ', '\x1b[93mlist\x1b[0m \x1b[1;96mwl_surface\x1b[0m', '\x1b', '\x1b[ list', ' \x1b[0m',
+                           '\x1b[0m w \x1b[0m help', '\x1b[0m\tfilter wl_surface', '\x1b[0m \x1b[0m \x1b[0m q q', 'w \x1b[0m', '\x1b[1;37mA\x1b[0m'])
     if r < 0.5:
         return cmdgen.mixed(rnd)
     if r < 0.8:
